@@ -282,6 +282,29 @@ def r11_value_free_control(repo: Repo, rep):
             rep.check(R, not bad, fi.site(), fi.fq, "conditions of forward read no tensor values", f"value-dependent tests: {sorted(set(bad))[:3]}", f"value tests {sorted(set(bad))[:3]}")
 
 
+def r12_rows_in_the_given_order(repo: Repo, rep):
+    R = rep.rule("R-C08-12", "no method of a model selects rows of a tensor with a stride or a permutation (x[k::m], x[::-1], x[randperm(..)]) along the FIRST axis: output row i is the image of input row i", floor=8,
+                 why="blocks cut with points[k::n_blocks] and glued with cat come back in another order: row i of the output belongs to another input row (only for batches larger than the block size)")
+    for mname, m in sorted(repo.modules.items()):
+        if not mname.startswith("torchphysics.models.") or ".deeponet" in mname:
+            continue
+        for ci in m.classes.values():
+            for fi in ci.methods.values():
+                if fi.name.startswith("__") and fi.name != "__call__":
+                    continue
+                rep.saw(fi)
+                bad = []
+                for n in ast.walk(fi.node):
+                    if not isinstance(n, ast.Subscript) or isinstance(n.ctx, ast.Store):
+                        continue
+                    first = n.slice.elts[0] if isinstance(n.slice, ast.Tuple) and n.slice.elts else n.slice
+                    if isinstance(first, ast.Slice) and first.step is not None and not (isinstance(first.step, ast.Constant) and first.step.value == 1):
+                        bad.append(dump(n)[:50])
+                    if isinstance(first, ast.Call) and (attr_chain(first.func) or "").split(".")[-1] in ("randperm", "argsort"):
+                        bad.append(dump(n)[:50])
+                rep.check(R, not bad, fi.site(), fi.fq, "rows are addressed contiguously and in order", str(bad[:2]), str(bad[:2]))
+
+
 def r8_feature_axis_from_the_end(repo: Repo, rep):
     R = rep.rule("R-C08-8", "models that accept several batch axes (and their building-block layers) address tensor axes of input-derived values from the end only "
                  "(dim=-1 for the features), never by a non-negative position", floor=8,
@@ -813,6 +836,7 @@ def r10_parallel_spaces(repo: Repo, rep):
 
 def run(repo: Repo, rep):
     r11_value_free_control(repo, rep)
+    r12_rows_in_the_given_order(repo, rep)
     r9_input_untouched(repo, rep)
     r10_parallel_spaces(repo, rep)
     from .generic import g_arg_constructor_parameters
